@@ -253,10 +253,52 @@ def check_direct_vs_cached(idx: Index, rep: Report) -> None:
         r.fail("duplicates", Finding("C29.R3", v.fq, "duplicates-accepted", "the SymbolTable verifier no longer rejects two symbols with the same name: first-match (direct) and last-wins (cached) lookups disagree", v.loc))
     # cached lookup keys by the plain string
     lk = idx.func(UT, "SymbolTable.lookup")
-    if "self._symbol_table.get(name)" in unparse(lk.node) and "name.data if isinstance(name, StringAttr) else name" in unparse(lk.node):
+    from ..paths import enum_paths
+
+    prm = lk.node.args.args[1].arg
+    verdicts = []
+    for pth in enum_paths(lk.node):
+        if not pth.feasible():
+            continue
+        for k, e_ in enumerate(pth.effects):
+            holder = e_[1] if isinstance(e_, tuple) and len(e_) == 2 and isinstance(e_[1], ast.AST) else e_
+            if not isinstance(holder, ast.AST):
+                continue
+            for n_ in ast.walk(holder):
+                key = None
+                if isinstance(n_, ast.Call) and call_attr(n_) == "get" and unparse(n_.func.value) == "self._symbol_table" and n_.args:  # type: ignore[attr-defined]
+                    key = n_.args[0]
+                elif isinstance(n_, ast.Subscript) and unparse(n_.value) == "self._symbol_table" and isinstance(n_.ctx, ast.Load):
+                    key = n_.slice
+                if key is None:
+                    continue
+                kt = pth.res(key, k)
+                isattr = next((p_ for t_, p_ in pth.nfacts() if t_ == f"isinstance({prm}, StringAttr)"), None)
+                verdicts.append((kt, isattr))
+        if pth.end == "return" and pth.value is not None:
+            for n_ in ast.walk(pth.value):
+                key = None
+                if isinstance(n_, ast.Call) and call_attr(n_) == "get" and unparse(n_.func.value) == "self._symbol_table" and n_.args:  # type: ignore[attr-defined]
+                    key = n_.args[0]
+                elif isinstance(n_, ast.Subscript) and unparse(n_.value) == "self._symbol_table":
+                    key = n_.slice
+                if key is None:
+                    continue
+                kt = pth.res(key)
+                isattr = next((p_ for t_, p_ in pth.nfacts() if t_ == f"isinstance({prm}, StringAttr)"), None)
+                verdicts.append((kt, isattr))
+    both = f"{prm}.data if isinstance({prm}, StringAttr) else {prm}"
+    bad_key = [(kt, ia) for kt, ia in verdicts if (ia is True and kt == prm) or (ia is None and kt == prm) or (ia is False and kt == f"{prm}.data")]
+    good = [(kt, ia) for kt, ia in verdicts if (ia is True and kt == f"{prm}.data") or (ia is False and kt == prm) or kt == both]
+    if not verdicts:
+        raise AnalysisError(f"{lk.fq}: no read of self._symbol_table found")
+    if bad_key:
+        kt, ia = bad_key[0]
+        r.fail("cached-key", Finding("C29.R3", lk.fq, "cached-key", f"cached lookup does not key by the plain symbol name: the table is read with `{kt}` on a path where isinstance({prm}, StringAttr) is {ia} (the table is keyed by str)", lk.loc))
+    elif len(good) == len(verdicts):
         r.ok("cached-key", f"{lk.loc} lookup by plain name")
     else:
-        r.fail("cached-key", Finding("C29.R3", lk.fq, "cached-key", "cached lookup does not key by the plain symbol name", lk.loc))
+        raise AnalysisError(f"{lk.fq}: key of the cached lookup not understood: {[v for v in verdicts if v not in good][:2]}")
 
 
 def check_symbol_predicate(idx: Index, rep: Report) -> None:
